@@ -67,6 +67,7 @@ pub fn demos() -> Vec<Demo> {
         let b = ty("B", vec![f("x", Ty::n("u32"))]);
         let mut m = module(&["m"], vec![Item::Type(a), Item::Type(b)]);
         m.impls.push(Impl {
+            more: vec![],
             ty: "B".into(),
             funcs: vec![func("g", vec![Arg::ConstSelf, Arg::Named("v".into(), Ty::n("AVftable").cptr())], None, Some(0x1000))],
         });
@@ -130,6 +131,7 @@ pub fn demos() -> Vec<Demo> {
         let c = ty("C", vec![base("p", "B"), base("q", "B")]);
         let mut m = module(&["m"], vec![Item::Type(a), Item::Type(b), Item::Type(c)]);
         m.impls.push(Impl {
+            more: vec![],
             ty: "A".into(),
             funcs: vec![func("hello", vec![Arg::ConstSelf], None, Some(0x2000))],
         });
@@ -176,6 +178,7 @@ pub fn demos() -> Vec<Demo> {
         let t = ty("T", vec![f("a", Ty::n("u32"))]);
         let mut m = module(&["m"], vec![Item::Type(t)]);
         m.impls.push(Impl {
+            more: vec![],
             ty: "T".into(),
             funcs: vec![func("call", vec![Arg::ConstSelf, Arg::Named("f".into(), Ty::n("u32"))], None, Some(0x3000))],
         });
@@ -195,6 +198,7 @@ pub fn demos() -> Vec<Demo> {
         });
         let mut m = module(&["m"], vec![Item::Type(t)]);
         m.impls.push(Impl {
+            more: vec![],
             ty: "T".into(),
             funcs: vec![func("vftable", vec![Arg::ConstSelf], None, Some(0x4000))],
         });
@@ -314,6 +318,7 @@ pub fn demos() -> Vec<Demo> {
         });
         let mut m = module(&["m"], vec![Item::Type(ty("A", vec![]))]);
         m.impls.push(Impl {
+            more: vec![],
             ty: "A".into(),
             funcs: vec![func("g", vec![Arg::ConstSelf, Arg::Named("a".into(), Ty::n("u32")), Arg::Named("a".into(), Ty::n("u32"))], None, Some(0x10))],
         });
